@@ -411,6 +411,8 @@ def runHook (S : Scripts) : Nat → HookFn
   | 0 => fun w _ _ => (w, false)
   | fuel + 1 => fun w o k => runOps (runHook S fuel) o (S.hook o k) w
 
+def bindTo (u : Oid) (c : Conn) : Conn := { c with ob := u, hasPI := true }
+
 /-- mudlib_connect(): master->connect(); on success the record moves from the master to the new user object -/
 def mudlibConnect (S : Scripts) (w : W) : W × Option Oid × Bool :=
   let k := w.nConnect + 1
@@ -425,60 +427,55 @@ def mudlibConnect (S : Scripts) (w : W) : W × Option Oid × Bool :=
     match w.inter .master with
     | none => (w, none, false)          -- "!master_ob->interactive": rejected
     | some id =>
+      -- ob->interactive = master_ob->interactive; ip->ob = ob; iflags |= HAS_PROCESS_INPUT; master_ob->interactive = 0
       let u := Oid.user (w.nUser + 1)
       let w := { w with nUser := w.nUser + 1 }
-      let w := setInter w u (some id)
-      let w := mapConn w id (fun c => { c with ob := u, hasPI := true })
-      (setInter w .master none, some u, false)
+      (mapConn (setInter (setInter w .master none) u (some id)) id (bindTo u), some u, false)
 
 def logonHook (rh : HookFn) (w : W) (u : Oid) : R :=
   let w := emit w (.tLogon u)
   let w := addOut w u s!"hello_{u.name}|"
   rh w u .logon
 
+/-- after new_interactive(): mudlib_connect(); rejected -> remove the record again; accepted -> logon() -/
+def afterConnect (S : Scripts) (rh : HookFn) (w : W) : R :=
+  let r := mudlibConnect S w
+  if r.2.2 then (r.1, true) else
+  match r.2.1 with
+  | none =>
+    match r.1.inter .master with
+    | some _ => (removeInteractive rh r.1 .master false, false)
+    | none => (r.1, false)
+  | some u => logonHook rh r.1 u
+
 /-- setup_accepted_connection() after accept() -/
 def acceptConn (S : Scripts) (rh : HookFn) (w : W) (client : Nat) : R :=
-  let (w, nid) := newInteractive w false client
-  match nid with
-  | none => (w, false)
-  | some _ =>
-    let (w, ou, raised) := mudlibConnect S w
-    if raised then (w, true) else
-    match ou with
-    | none =>
-      match w.inter .master with
-      | some _ => (removeInteractive rh w .master false, false)
-      | none => (w, false)
-    | some u => logonHook rh w u
+  let r := newInteractive w false client
+  match r.2 with
+  | none => (r.1, false)
+  | some _ => afterConnect S rh r.1
 
 /-- init_console_user(reconnect) -/
 def initConsoleUser (S : Scripts) (rh : HookFn) (w : W) : R :=
-  let (w, _) := newInteractive w true 0
+  let w := (newInteractive w true 0).1
   match w.inter .master with
   | none => (crash w "init_console_user: master_ob->interactive is NULL", false)
-  | some _ =>
-    let (w, ou, raised) := mudlibConnect S w
-    if raised then (w, true) else
-    match ou with
-    | none =>
-      match w.inter .master with
-      | some _ => (removeInteractive rh w .master false, false)
-      | none => (w, false)
-    | some u => logonHook rh w u
+  | some _ => afterConnect S rh w
 
 /-- split received text at line ends ('/'): (complete lines, new partial) -/
 def splitLines (part : String) (text : String) : List String × String :=
   let pieces := (part ++ text).splitOn "/"
   (pieces.dropLast, pieces.getLastD "")
 
+def bufferText (ls : List String) (p : String) (c : Conn) : Conn := { c with cmds := c.cmds ++ ls, part := p }
+
 /-- get_user_data() with data: buffer it, echo CR LF per completed line (telnet); no LPC is called -/
 def userData (w : W) (id : Nat) (telnet : Bool) (text : String) : W :=
   match findConn w id with
   | none => w
   | some c =>
-    let (ls, p) := splitLines c.part text
-    let ls := ls.filter (· ≠ "")
-    let w := mapConn w id (fun c => { c with cmds := c.cmds ++ ls, part := p })
+    let ls := (splitLines c.part text).1.filter (· ≠ "")
+    let w := mapConn w id (bufferText ls (splitLines c.part text).2)
     if telnet then addOut w c.ob (String.join (ls.map (fun _ => "|"))) else w
 
 inductive IoEv
@@ -511,25 +508,25 @@ def ioEvent (S : Scripts) (rh : HookFn) (w : W) : IoEv → R
     match w.users with
     | none => (crash w "process_io: all_users[0] with all_users == NULL (console)", false)
     | some l =>
-      let (w, raised) := if (l.headD none).isNone then initConsoleUser S rh w else (w, false)
-      if raised then (w, true) else
-      match (slots w).headD none with
-      | none => (w, false)
-      | some c => (userData w c.id false text, false)
+      -- console user disconnected: re-connect first
+      let r := if (l.headD none).isNone then initConsoleUser S rh w else (w, false)
+      if r.2 then (r.1, true) else
+      match (slots r.1).headD none with
+      | none => (r.1, false)
+      | some c => (userData r.1 c.id false text, false)
 
 def processIoEvents (S : Scripts) (rh : HookFn) : List IoEv → W → R
   | [], w => (w, false)
   | e :: es, w =>
-    let (w, raised) := ioEvent S rh w e
-    if raised then (w, true) else processIoEvents S rh es w
+    if (ioEvent S rh w e).2 then ((ioEvent S rh w e).1, true) else processIoEvents S rh es (ioEvent S rh w e).1
 
 /-- process_io(): all events, then `if (all_users && all_users[0]) flush_message (all_users[0])` -/
 def processIo (S : Scripts) (rh : HookFn) (w : W) (evs : List IoEv) : R :=
-  let (w, raised) := processIoEvents S rh evs w
-  if raised then (w, true) else
-  match w.users with
-  | none => (w, false)            -- guarded by the fix; before it: `all_users[0]` with all_users == NULL
-  | some _ => (w, false)
+  let r := processIoEvents S rh evs w
+  if r.2 then (r.1, true) else
+  match r.1.users with
+  | none => (r.1, false)            -- guarded by the fix; before it: `all_users[0]` with all_users == NULL
+  | some _ => (r.1, false)
 
 /-! ## commands (comm.c) -/
 
@@ -559,52 +556,50 @@ def updateLoadAv (w : W) : W :=
   else if w.now < w.loadLast then { w with loadLast := w.now }      -- fix commit; before: consts[negative]
   else { w with loadLast := w.now }
 
+/-- process_input apply of process_user_command() -/
+def inputStage (rh : HookFn) (w : W) (cg : Oid) (line : String) (hasPI : Bool) : R :=
+  if hasPI then rh (emit w (.tInput cg line)) cg .input else (w, false)
+
+/-- process_command -> user_parser -> the catch-all verb of the user object -/
+def commandStage (rh : HookFn) (w : W) (cg : Oid) (line : String) : R :=
+  if cg = .master then (w, false)           -- user_parser(): no O_ENABLE_COMMANDS, nothing happens
+  else if w.dead cg then (w, false) else
+    let r := rh (emit w (.tCmd cg line)) cg (.cmd line)
+    if r.2 then (r.1, true) else (addOut r.1 cg s!"ack_{line}|", false)
+
+/-- process_user_command() once get_user_command() has picked a record: (state, processed, uncaught error) -/
+def serveCommand (rh : HookFn) (w : W) (c0 : Conn) : W × Bool × Bool :=
+  let cg := c0.ob                               -- command_giver = ip->ob
+  let line := c0.cmds.headD ""
+  if w.dead cg then (w, true, false) else
+  match w.inter cg with                         -- ip = command_giver->interactive
+  | none => (w, true, false)
+  | some id =>
+    let w := updateLoadAv (useConn w id)        -- clear_notify (ip); update_load_av ()
+    let hasPI := match findConn w id with | some c => c.hasPI | none => false
+    let r1 := inputStage rh w cg line hasPI
+    if r1.2 then (r1.1, true, true) else
+    if hasPI && r1.1.inter cg ≠ some id then (r1.1, true, false) else      -- VALIDATE_IP
+    let r2 := commandStage rh r1.1 cg line
+    if r2.2 then (r2.1, true, true) else
+    if r2.1.inter cg ≠ some id then (r2.1, true, false) else               -- VALIDATE_IP
+    -- print_prompt (ip); tell_object (ip->ob, prompt): the master is not a user object, nothing reaches the socket
+    (if cg = .master then useConn r2.1 id else addOut (useConn r2.1 id) cg ">_", true, false)
+
 /-- process_user_command(): returns (state, a command was processed, uncaught error) -/
 def processUserCommand (rh : HookFn) (w : W) : W × Bool × Bool :=
-  let (w, oc) := scanUsers (slots w).length w
-  match oc with
-  | none => (w, false, false)
-  | some c0 =>
-    let cg := c0.ob                               -- command_giver = ip->ob
-    let line := c0.cmds.headD ""
-    if w.dead cg then (w, true, false) else
-    match w.inter cg with                         -- ip = command_giver->interactive
-    | none => (w, true, false)
-    | some id =>
-      let w := useConn w id                       -- clear_notify (ip)
-      let w := updateLoadAv w
-      let hasPI := match findConn w id with | some c => c.hasPI | none => false
-      -- process_input
-      let (w, raised) :=
-        if hasPI then
-          let w := emit w (.tInput cg line)
-          rh w cg .input
-        else (w, false)
-      if raised then (w, true, true) else
-      if hasPI && w.inter cg ≠ some id then (w, true, false) else      -- VALIDATE_IP
-      -- process_command -> user_parser -> the catch-all verb
-      let (w, raised) :=
-        if cg = .master then (w, false)           -- user_parser(): no O_ENABLE_COMMANDS, nothing happens
-        else if w.dead cg then (w, false) else
-          let w := emit w (.tCmd cg line)
-          let (w, raised) := rh w cg (.cmd line)
-          if raised then (w, true) else
-          (addOut w cg s!"ack_{line}|", false)
-      if raised then (w, true, true) else
-      if w.inter cg ≠ some id then (w, true, false) else               -- VALIDATE_IP
-      let w := useConn w id                       -- print_prompt (ip)
-      -- tell_object (ip->ob, prompt): the master is not a user object, nothing reaches the socket
-      (if cg = .master then w else addOut w cg ">_", true, false)
+  let r := scanUsers (slots w).length w
+  match r.2 with
+  | none => (r.1, false, false)
+  | some c0 => serveCommand rh r.1 c0
 
 /-- `for (i = 0; process_user_command () && i < connected_users; i++);` -/
 def commandLoop (rh : HookFn) : Nat → W → R
-  | 0, w =>
-    let (w, _, raised) := processUserCommand rh w
-    (w, raised)
+  | 0, w => ((processUserCommand rh w).1, (processUserCommand rh w).2.2)
   | n + 1, w =>
-    let (w, did, raised) := processUserCommand rh w
-    if raised then (w, true) else
-    if did then commandLoop rh n w else (w, false)
+    let r := processUserCommand rh w
+    if r.2.2 then (r.1, true) else
+    if r.2.1 then commandLoop rh n r.1 else (r.1, false)
 
 /-! ## the timer tick (backend.c call_heart_beat) -/
 
@@ -615,26 +610,22 @@ def hbLoop (rh : HookFn) : Nat → W → R
     match w.hbs[w.hbNext]? with           -- heart_beats[heart_beat_index]
     | none => (w, false)
     | some o =>
-      let w := { w with hbNext := w.hbNext + 1, curHb := some o }
-      let w := emit w (.tHb o)
-      let (w, raised) := rh w o .hb
-      if raised then (w, true) else
-      if w.hbNext = w.hbToDo then (w, false) else hbLoop rh n w
+      let r := rh (emit { w with hbNext := w.hbNext + 1, curHb := some o } (.tHb o)) o .hb
+      if r.2 then (r.1, true) else
+      if r.1.hbNext = r.1.hbToDo then (r.1, false) else hbLoop rh n r.1
+
+/-- reset_object(): next_reset first, then apply (clears O_RESET_STATE), O_RESET_STATE set when it returns -/
+def resetObject (rh : HookFn) (w : W) (k : Nat) : W :=
+  let r := rh (emit { w with nextReset := fun x => if x = k then w.now + resetDuration / 2 else w.nextReset x }
+                    (.tReset (.obj k))) (.obj k) .reset
+  if r.2 then r.1 else { r.1 with resetState := fun x => if x = k then true else r.1.resetState x }
 
 /-- look_for_objects_to_swap(): reset() of every object that is due; own recovery point (the list walk restarts) -/
 def sweepResets (rh : HookFn) : List Nat → W → W
   | [], w => w
   | k :: ks, w =>
-    let o := Oid.obj k
-    if w.dead o then sweepResets rh ks w else
-    if w.nextReset k < w.now && !w.resetState k then
-      -- reset_object(): next_reset first, then apply (clears O_RESET_STATE), O_RESET_STATE set on return
-      let w := { w with nextReset := fun x => if x = k then w.now + resetDuration / 2 else w.nextReset x }
-      let w := emit w (.tReset o)
-      let (w, raised) := rh w o .reset
-      let w := if raised then w
-               else { w with resetState := fun x => if x = k then true else w.resetState x }
-      sweepResets rh ks w
+    if w.dead (.obj k) then sweepResets rh ks w else
+    if w.nextReset k < w.now && !w.resetState k then sweepResets rh ks (resetObject rh w k)
     else sweepResets rh ks w
 
 /-- call_out(): every due entry fires, entries of destructed objects are dropped; own recovery point per entry -/
@@ -650,23 +641,25 @@ def sweepCallOuts (rh : HookFn) : Nat → W → W
         sweepCallOuts rh n (rh (touch (emit w (.tCo c.owner c.tag)) c.owner) c.owner (.co c.tag)).1
       else w
 
-/-- call_heart_beat() -/
-def callHeartBeat (rh : HookFn) (w : W) : R :=
-  let w := { w with hbFlag := false, now := w.clock, hbToDo := w.hbs.length }
-  let (w, raised) :=
-    if w.hbToDo > 0 then
-      let (w, raised) := hbLoop rh w.hbToDo { w with hbNext := 0 }
-      if raised then (w, true) else ({ w with hbNext := 0, hbToDo := 0 }, false)
-    else (w, false)
-  if raised then (w, true) else
+/-- the heart-beat round of call_heart_beat() -/
+def hbRound (rh : HookFn) (w : W) : R :=
+  if w.hbToDo > 0 then
+    let r := hbLoop rh w.hbToDo { w with hbNext := 0 }
+    if r.2 then (r.1, true) else ({ r.1 with hbNext := 0, hbToDo := 0 }, false)
+  else (w, false)
+
+/-- look_for_objects_to_swap() and call_out(), each under its own error context -/
+def timerSweeps (rh : HookFn) (w : W) : W :=
   let w := { w with curHb := none }
-  -- look_for_objects_to_swap
   let w :=
     if w.now < w.nextSweep then w else
-    let w := { w with nextSweep := w.now + sweepPeriod }
-    popCtx (sweepResets rh w.objList (pushCtx w))
-  -- call_out
-  (popCtx (sweepCallOuts rh (w.callouts.length) (pushCtx w)), false)
+    popCtx (sweepResets rh w.objList (pushCtx { w with nextSweep := w.now + sweepPeriod }))
+  popCtx (sweepCallOuts rh (w.callouts.length) (pushCtx w))
+
+/-- call_heart_beat() -/
+def callHeartBeat (rh : HookFn) (w : W) : R :=
+  let r := hbRound rh { w with hbFlag := false, now := w.clock, hbToDo := w.hbs.length }
+  if r.2 then (r.1, true) else (timerSweeps rh r.1, false)
 
 /-! ## backend() -/
 
@@ -693,44 +686,42 @@ def applyAction (w : W) : Action → W × List IoEv
 def applyActions : List Action → W → W × List IoEv
   | [], w => (w, [])
   | a :: as, w =>
-    let (w, e1) := applyAction w a
-    let (w, e2) := applyActions as w
-    (w, e1 ++ e2)
+    ((applyActions as (applyAction w a).1).1, (applyAction w a).2 ++ (applyActions as (applyAction w a).1).2)
 
 /-- restore_context (&econ) at the recovery point of backend(): back to the head of the loop.
     (Before the fix commits the start-up code ran again from here.) -/
 def recover (w : W) : W := { w with ctxDepth := 1 }
 
+/-- remove_destructed_objects (); grant command turns; do_comm_polling (trace marker, the outside world acts) -/
+def cycleHead (n : Nat) (acts : List Action) (w : W) : W × List IoEv :=
+  applyActions acts
+    (emit { w with users := w.users.map (fun l => l.map (fun s => s.map (fun c => { c with turn := true }))) } (.cycle n))
+
+/-- the body of one iteration after the poll: process_io, the command loop, call_heart_beat -/
+def cycleBody (S : Scripts) (rh : HookFn) (connected : Nat) (w : W) (evs : List IoEv) : W × Bool :=
+  let r1 := if evs.isEmpty then (w, false) else processIo S rh w evs
+  if r1.2 then (recover r1.1, false) else
+  let r2 := commandLoop rh connected r1.1
+  if r2.2 then (recover r2.1, false) else
+  if r2.1.hbFlag then
+    let r3 := callHeartBeat rh r2.1
+    if r3.2 then (recover r3.1, false) else (r3.1, true)
+  else (r2.1, true)
+
 /-- one iteration of `while (1)` in backend(); `n` is the cycle number (trace marker at the poll point).
     The Bool says whether the iteration reached its end (where the H1 hook sits) instead of leaving by longjmp. -/
 def cycle (S : Scripts) (rh : HookFn) (n : Nat) (acts : List Action) (w : W) : W × Bool :=
   if w.shutdown then (w, false) else
-  -- remove_destructed_objects (); grant command turns, count connected users
-  let connected := ((slots w).filter Option.isSome).length
-  let w := { w with users := w.users.map (fun l => l.map (fun s => s.map (fun c => { c with turn := true }))) }
-  -- do_comm_polling
-  let w := emit w (.cycle n)
-  let (w, evs) := applyActions acts w
-  -- process_io
-  let (w, raised) := if evs.isEmpty then (w, false) else processIo S rh w evs
-  if raised then (recover w, false) else
-  let (w, raised) := commandLoop rh connected w
-  if raised then (recover w, false) else
-  if w.hbFlag then
-    let (w, raised) := callHeartBeat rh w
-    if raised then (recover w, false) else (w, true)
-  else (w, true)
+  cycleBody S rh ((slots w).filter Option.isSome).length (cycleHead n acts w).1 (cycleHead n acts w).2
 
 /-- backend() up to the loop: save_context, recovery point, then the start-up steps - initial tick, console user -
     each exactly once even when the previous one left through the recovery point (fix commits) -/
 def startup (S : Scripts) (rh : HookFn) (w : W) : W :=
-  let w := emit w .start
-  let w := { w with ctxDepth := 1 }
-  let (w, raised) := callHeartBeat rh w
-  let w := if raised then recover w else w
+  let r := callHeartBeat rh { (emit w .start) with ctxDepth := 1 }
+  let w := if r.2 then recover r.1 else r.1
   if w.mode = .console then
-    let (w, raised) := initConsoleUser S rh w
-    if raised then recover w else w
+    let r := initConsoleUser S rh w
+    if r.2 then recover r.1 else r.1
   else w
 
 def runCycles (S : Scripts) (rh : HookFn) : Nat → List (List Action) → W → W
